@@ -108,15 +108,18 @@ def run_paths(prop, tier):
         out.add_tlc(mc)
         trace = os.path.join(wd, "xp.trace")
         stats_p = os.path.join(wd, "xp.stats")
-        C.run_harness(["xp-replay", "--in", replay, "--trace", trace, "--stats", stats_p,
-                       "--sample", str(t["sample"])])
-        stats = json.load(open(stats_p))
+        _, crashed = C.run_harness_watched(["xp-replay", "--in", replay, "--trace", trace, "--stats", stats_p,
+                                             "--sample", str(t["sample"])], trace)
+        if crashed:     # the crash event is in the trace and will be judged; statistics are not available
+            stats = {"cases": 1, "evaluations": 0, "fast_ok": 0, "nontrivial": 1, "samples": [], "families": {}, "crashed": True}
+        else:
+            stats = json.load(open(stats_p))
         if stats["cases"] == 0:
             raise C.ToolError("no REPLAY cases")
         # vacuity guard: every family of the grammar must have produced cases, and a fair share of the
         # expected values must be non-trivial (non-empty node-sets or scalars)
-        want = {"p1", "un", "fl"} if "tiny" in t["cfg"] else {"p1", "p2", "un", "fl", "cmp", "fn", "ctx", "ns", "kw", "ar", "ar3"}
-        if tier == "thorough":
+        want = set() if stats.get("crashed") else {"p1", "un", "fl"} if "tiny" in t["cfg"] else {"p1", "p2", "un", "fl", "cmp", "fn", "ctx", "ns", "kw", "ar", "ar3"}
+        if tier == "thorough" and want:
             want = want | {"g1"}
         missing = sorted(f for f in want if stats["families"].get(f, 0) == 0)
         if missing:
@@ -127,8 +130,8 @@ def run_paths(prop, tier):
             C.log("note: %d documents of the model were rejected by the parser" % stats["bad_docs"])
         # random driver: larger documents and expressions, metamorphic union groups
         rnd = os.path.join(wd, "xp.rnd")
-        C.run_harness(["xp-record", "--seed", str(C.seed()), "--n", str(t["rnd"]), "--groups", str(t["groups"]),
-                       "--out", rnd])
+        C.run_harness_watched(["xp-record", "--seed", str(C.seed()), "--n", str(t["rnd"]), "--groups", str(t["groups"]),
+                               "--out", rnd], rnd)
         with open(trace, "a") as f, open(rnd) as g:
             for line in g:
                 f.write(line)
